@@ -278,6 +278,10 @@ thread_local! {
     static PRE_SEQ: std::cell::RefCell<Option<SeqObs>> = std::cell::RefCell::new(None);
 }
 
+pub fn set_pre(o: SeqObs) {
+    PRE_SEQ.with(|p| *p.borrow_mut() = Some(o));
+}
+
 pub fn pre_txn(w: &mut World, n: usize, _p: &mut Pre) {
     match w.cfg.profile.as_str() {
         "seq" => {
